@@ -70,6 +70,11 @@ func coreReplay(args []string) {
 			must(fmt.Errorf("behaviour %d: %v", nb, err))
 		}
 		s := NewSystem(topo)
+		for _, a := range beh {
+			if a.str("a") == "lreq" {
+				s.needOffsets = true
+			}
+		}
 		must(enc.Encode(map[string]any{"a": map[string]string{"a": "reset"}}))
 		for _, a := range beh {
 			must(enc.Encode(s.step(a)))
